@@ -7,6 +7,7 @@ import os, re, subprocess, sys, tempfile
 COQ = "/verif/coq"
 KERN = {  # order matters: longer patterns first is not needed, `set` matches whole subterms
     # name -> (closed expression in th2/th, K name, T name, trunc lemma, bound exponent text)
+    "A": ("1 / th2 - (1 + cos th) / (2 * th * sin th)", "K_A", "T_A", "KA_trunc", "0 <= {K} - {T} <= eps2 * eps2 / 25000"),
     "Q": ("sin (th / 2) / th", "K_Q", "T_Q", "Q_trunc", "0 <= {K} - {T} <= eps2 * eps2 / 3840"),
     "W": ("cos (th / 2)", "K_W", "T_W", "W_trunc", "0 <= {K} - {T} <= eps2 * eps2 / 384"),
     "C2": ("(cos th - 1) / th2", "K_cos2", "T_cos2", "cos2_trunc", "0 <= {K} - {T} <= eps2 * eps2 * eps2 / 40320"),
@@ -76,6 +77,7 @@ Proof.
   assert (Hth : 0 < th) by (apply sqrt_lt_R0; assumption).
   assert (Hsq : th * th = th2) by (apply sqrt_sqrt; unfold th2; lra).
   assert (Hle1 : th <= 1) by (unfold th; rewrite <- sqrt_1; apply sqrt_le_1_alt; lra).
+  assert (Hsin : 0 < sin th) by (apply sin_pos_small; split; assumption).
   assert (Hth222 : th2 * th2 * th2 <= eps2 * eps2 * eps2) by (apply Rmult_le_compat; [nra | lra | apply Rmult_le_compat; lra | lra]).
   assert (H6 : th^6 = th2 * th2 * th2) by (rewrite <- Hsq; ring).
   assert (H4 : th^4 = th2 * th2) by (rewrite <- Hsq; ring).
@@ -112,7 +114,7 @@ if __name__ == "__main__":
    abstracted; the series path is the same expression with the kernels replaced by their Taylor polynomials, and the kernel
    values differ by the bounds of Base/Kernels.v.  A changed series coefficient or switch breaks an equation. *)
 From Coq Require Import Reals List Lra Lia.
-From SV Require Import Base.GenPrelude Base.Mat Doc.Groups Base.Tactics Base.Trig Base.Kernels Base.KernelQ.
+From SV Require Import Base.GenPrelude Base.Mat Doc.Groups Base.Tactics Base.Trig Base.Kernels Base.KernelQ Base.KernelA.
 From SV Require {' '.join('Gen.' + u for u in units)}.
 Import ListNotations.
 Local Open Scope R_scope.
@@ -120,7 +122,7 @@ Local Open Scope R_scope.
     open(os.path.join(COQ, "Proofs", specs["file"] + ".v"), "w").write(hdr + "".join(lemmas))
     phdr = f"""(* {specs['title']}: property theorems only. *)
 From Coq Require Import Reals List Lra.
-From SV Require Import Base.GenPrelude Base.Mat Base.Trig Base.Kernels Base.KernelQ Doc.Groups.
+From SV Require Import Base.GenPrelude Base.Mat Base.Trig Base.Kernels Base.KernelQ Base.KernelA Doc.Groups.
 From SV Require {' '.join('Gen.' + u for u in units)}.
 From SV Require Proofs.{specs['file']}.
 Import ListNotations.
